@@ -479,6 +479,10 @@ def rule_r2(ctx) -> List[R.Inst]:
         if i_bpm and i_sv and reset_one and red is not None and gkey == "offset" and sv_wins:
             insts.append(R.ok(rid, "sv-precedence", file, sv_concat.lineno,
                               idiom="tempo points reset the multiplier to 1; a coincident SV wins (listed later, last() per offset)"))
+        elif not (i_bpm and i_sv):
+            insts.append(R.undec(rid, "sv-precedence", file, sv_concat.lineno,
+                                 f"the parts of the SV frame ({[p_[:30] for p_ in parts]}) are not recognisably the chart's tempo points and its SVs: "
+                                 f"their precedence is not decided"))
         else:
             why = []
             if not reset_one:
